@@ -100,11 +100,15 @@ def build_cases(tier):
                 f"pdet_{m}{n}_{fam}", out=determinant_expr(a),
                 spec=f"fn FSqrt (DET {n} (GRAM {m} (MAT (DEN s rho pdet_{m}{n}_{fam}_A0))))",
                 named={"A0": a}, note={"op": "pseudo-determinant", "shape": (m, n), "operand": fam}))
+            # reference expressions for the failing-input search only (the obligation uses the Gallina spec)
+            gram = ufl.dot(ufl.transpose(a), a)
+            cases[-1].ref = ufl.sqrt(ufl.det(gram)) if n > 1 else ufl.sqrt(gram[0, 0])
             cases.append(coqgen.Case(
                 f"pinv_{m}{n}_{fam}", out=inverse_expr(a),
                 spec=f"DEN s rho (Inverse pinv_{m}{n}_{fam}_A0) {{c}}",
                 hyps=[f"DET {n} (GRAM {m} (MAT (DEN s rho {{A0}}))) <> z0"],
                 named={"A0": a}, note={"op": "pseudo-inverse", "shape": (m, n), "operand": fam}))
+            cases[-1].ref = ufl.dot(ufl.inv(gram), ufl.transpose(a)) if n > 1 else ufl.transpose(a) / gram[0, 0]
     for opname, op, shapes, cell in diff_configurations():
         for fam in ("T", "E"):
             ops = [operands(sh, fam, cell) for sh in shapes]
@@ -133,8 +137,15 @@ def main(run):
         if case.name in seen:
             continue
         seen.add(case.name)
-        w = search.value_mismatch(case.out, case.inp, trials=40 if run.tier == "quick" else 400,
-                                  seed=run.seed, hyps_nonzero=[case.named.get("A0")] if case.hyps else [])
+        ref = case.inp if case.inp is not None else getattr(case, "ref", None)
+        w = None
+        if ref is not None:
+            try:
+                w = search.value_mismatch(case.out, ref, trials=40 if run.tier == "quick" else 400,
+                                          seed=run.seed, hyps_nonzero=[case.named.get("A0")] if case.hyps else [])
+            except Exception as e:  # noqa: BLE001   the search is best effort; the broken obligation stands
+                w = None
+                run.extra.setdefault("search_errors", []).append(f"{case.name}: {type(e).__name__}: {e}"[:200])
         rep = {"broken_obligation": lemma, "case": case.name, "note": case.note, "coq_message": msg,
                "input_expr": str(case.inp), "lowered_expr": str(case.out)[:2000],
                "reproduce": "bin/check C06"}
